@@ -4,9 +4,10 @@ C33 — the registries a schema change touches, as the DDL executors update them
 
   catalog   table name → declared columns          (`Catalog::create_table / drop_table`)
   stored    table name → (the stored table's OWN schema copy, rows)   (`Database::tables`)
-  reg       user-defined indexes: name, table, key columns  (`Operations::index_manager` and the
-            catalog's index list, which `CreateIndexExecutor` / `DropIndexExecutor` /
-            `DropTableExecutor` update together)
+  reg       the catalog's index list: name AS WRITTEN, table, key columns
+  sreg      the storage registry `Operations::index_manager`: keyed by the NORMALISED index name
+            (`CreateIndexExecutor` / `DropIndexExecutor` / `DropTableExecutor` /
+            `propagate_column_change` update both)
 
 Names are the normalised ones (the parser upper-cases unquoted identifiers; a quoted name is a
 different name).  ALTER TABLE ADD / DROP COLUMN (`alter/columns.rs` + `propagate_column_change` in
@@ -32,7 +33,11 @@ structure DIndex where
 structure DState where
   catalog : List (String × List String)
   stored : List (String × STable)
+  /-- the catalog's index list: entries addressed by (table, name AS WRITTEN) -/
   reg : List DIndex
+  /-- the storage registry (`Operations::index_manager`): key = NORMALISED index name (upper-cased
+  in the code), value = metadata holding the name as written -/
+  sreg : List (String × DIndex)
   deriving Repr, DecidableEq
 
 inductive DErr where
@@ -49,9 +54,13 @@ inductive DOp where
   | clear (n : String)
   | addColumn (n c : String)
   | dropColumn (n c : String)
+  /-- CHANGE COLUMN old new (rename) -/
+  | changeColumn (n old new : String)
+  /-- MODIFY COLUMN (type only: no registry changes) -/
+  | modifyColumn (n c : String)
   deriving Repr, DecidableEq
 
-def init : DState := { catalog := [], stored := [], reg := [] }
+def init : DState := { catalog := [], stored := [], reg := [], sreg := [] }
 
 def catCols (s : DState) (n : String) : Option (List String) :=
   (s.catalog.find? (fun e => e.1 == n)).map (fun e => e.2)
@@ -86,7 +95,22 @@ def dropCol (c : String) (t : STable) : STable :=
 def updCatalog (s : DState) (n : String) (g : List String → List String) : DState :=
   { s with catalog := s.catalog.map (fun e => if e.1 = n then (e.1, g e.2) else e) }
 
-def step (s : DState) : DOp → DState × Option DErr
+def colsRename (old new : String) (cols : List String) : List String :=
+  cols.map (fun c => if c = old then new else c)
+
+def renameCol (old new : String) (t : STable) : STable :=
+  { t with cols := colsRename old new t.cols }
+
+/-- an index whose metadata names column `c` of table `n` -/
+def namesCol (n c : String) (ix : DIndex) : Bool := ix.table == n && ix.cols.contains c
+
+/-- is catalog entry `d` addressed by the metadata of one of the storage entries `vs`?
+(`catalog.drop_index(&metadata.table_name, &metadata.index_name)`) -/
+def addressed (vs : List (String × DIndex)) (d : DIndex) : Bool :=
+  vs.any (fun v => v.2.table == d.table && v.2.name == d.name)
+
+/-- `norm` is the registry's key normalisation (`to_uppercase` in the code) -/
+def step (norm : String → String) (s : DState) : DOp → DState × Option DErr
   | .createTable n cols =>
     if (catCols s n).isSome then (s, some .tableExists)
     else ({ s with catalog := s.catalog ++ [(n, cols)], stored := s.stored ++ [(n, { cols := cols, rows := [] })] }, none)
@@ -94,20 +118,33 @@ def step (s : DState) : DOp → DState × Option DErr
     if (catCols s n).isSome then
       ({ catalog := s.catalog.filter (fun e => decide (e.1 ≠ n))
          stored := s.stored.filter (fun e => decide (e.1 ≠ n))
-         reg := s.reg.filter (fun ix => decide (ix.table ≠ n)) }, none)
+         reg := s.reg.filter (fun ix => decide (ix.table ≠ n))
+         -- DropTableExecutor: `database.drop_index(&index.name)` for every catalog entry of the table
+         sreg := s.sreg.filter (fun e =>
+           !((s.reg.filter (fun ix => decide (ix.table = n))).any (fun d => norm d.name == e.1))) }, none)
     else (s, some .tableMissing)
   | .createIndex i n cols =>
     match catCols s n with
     | none => (s, some .tableMissing)
     | some tc =>
       if cols.all (fun c => tc.contains c) then
-        if s.reg.any (fun ix => ix.name == i) then (s, some .indexExists)
-        else ({ s with reg := s.reg ++ [{ name := i, table := n, cols := cols }] }, none)
+        if s.sreg.any (fun e => e.1 == norm i) then (s, some .indexExists)
+        else ({ s with reg := s.reg ++ [{ name := i, table := n, cols := cols }]
+                       sreg := s.sreg ++ [(norm i, { name := i, table := n, cols := cols })] }, none)
       else (s, some .columnMissing)
   | .dropIndex i =>
-    if s.reg.any (fun ix => ix.name == i) then
-      ({ s with reg := s.reg.filter (fun ix => !(ix.name == i)) }, none)
-    else (s, some .indexMissing)
+    -- catalog entry of that exact name first, else the registry entry of the normalised name
+    -- (whose catalog entry is addressed by the name it was created with: fix of DROP INDEX)
+    match s.reg.find? (fun ix => ix.name == i) with
+    | some m =>
+      ({ s with reg := s.reg.filter (fun d => !(d.table == m.table && d.name == i))
+                sreg := s.sreg.filter (fun e => !(e.1 == norm i)) }, none)
+    | none =>
+      match s.sreg.find? (fun e => e.1 == norm i) with
+      | some v =>
+        ({ s with reg := s.reg.filter (fun d => !(d.table == v.2.table && d.name == v.2.name))
+                  sreg := s.sreg.filter (fun e => !(e.1 == norm i)) }, none)
+      | none => (s, some .indexMissing)
   | .insert n r =>
     match catCols s n, stTable s n with
     | some tc, some t =>
@@ -132,8 +169,31 @@ def step (s : DState) : DOp → DState × Option DErr
       if t.cols.length ≤ 1 then (s, some .lastColumn)
       else if t.cols.contains c then
         let s1 := updCatalog (updStored s n (dropCol c)) n (colsDrop c)
-        ({ s1 with reg := s1.reg.filter (fun ix => !(ix.table == n && ix.cols.contains c)) }, none)
+        -- `propagate_column_change`: the storage entries naming the column are the victims; each is
+        -- removed from storage by its key and from the catalog by (metadata.table, metadata.name)
+        let victims := s1.sreg.filter (fun e => namesCol n c e.2)
+        ({ s1 with reg := s1.reg.filter (fun d => !(addressed victims d))
+                   sreg := s1.sreg.filter (fun e => !(namesCol n c e.2)) }, none)
       else (s, some .columnMissing)
+  | .changeColumn n old new =>
+    match stTable s n with
+    | none => (s, some .tableMissing)
+    | some t =>
+      if t.cols.contains old then
+        if old ≠ new ∧ t.cols.contains new then (s, some .columnExists)
+        else
+          let s1 := updCatalog (updStored s n (renameCol old new)) n (colsRename old new)
+          -- indexes naming the column are dropped and come back under the new column name
+          let victims := s1.sreg.filter (fun e => namesCol n old e.2)
+          ({ s1 with
+             reg := s1.reg.map (fun d => if addressed victims d then { d with cols := colsRename old new d.cols } else d)
+             sreg := s1.sreg.map (fun e => if namesCol n old e.2 then (e.1, { e.2 with cols := colsRename old new e.2.cols }) else e) },
+           none)
+      else (s, some .columnMissing)
+  | .modifyColumn n c =>
+    match stTable s n with
+    | none => (s, some .tableMissing)
+    | some t => if t.cols.contains c then (s, none) else (s, some .columnMissing)
 
 /-- the stored table a name resolves to (`Database::get_table`: as written first, then normalised) -/
 def resolve (norm : String → String) (s : DState) (x : String) : Option String :=
@@ -151,8 +211,8 @@ def indexesFor (norm : String → String) (s : DState) (n : String) : List DInde
       | some a, some b => a == b
       | _, _ => true))
 
-def run (s : DState) : List DOp → DState
+def run (norm : String → String) (s : DState) : List DOp → DState
   | [] => s
-  | op :: ops => run (step s op).1 ops
+  | op :: ops => run norm (step norm s op).1 ops
 
 end VibeProof.Ddl
